@@ -32,6 +32,7 @@ PROBES = [
     "delivery-rejected-unknown-prefix",
     "delivery-rejected-duplicate-segments",
     "delivery-rejected-nested-segments",
+    "delivery-rejected-malformed-nibbles",
     "response-early-then-retried",
     "shape-leaf",
     "shape-extension",
@@ -182,6 +183,27 @@ class World:
         conv = (tuple, list, Nibbles)[form]
         a_prefix = conv(prefix)
         a_segs = (tuple if form == 1 else list)(conv(s) for s in segs)
+        bad = cmd.get("badnib")
+        if bad:
+            # a response that is not even made of nibbles: one element out of range or of
+            # the wrong type, or a sub-segment that is no sequence; offered as plain
+            # lists/tuples (a Nibbles cannot hold it).  Refused without effect, whatever
+            # else is right or wrong with the response.
+            junk = {"16": 16, "-1": -1, "256": 256, "str": "a", "none": None}.get(bad["kind"])
+            plain = [list(x) for x in segs]
+            i = bad["i"] % (len(plain) + 1)
+            if bad["kind"] == "intseg":
+                plain.insert(i, 5)
+            elif bad["kind"] == "bytesseg":
+                plain.insert(i, b"\x01")
+            elif i == len(plain):
+                plain.append([junk])
+            else:
+                plain[i].insert(bad["j"] % (len(plain[i]) + 1), junk)
+            a_prefix = list(prefix) if form else tuple(prefix)
+            a_segs = tuple(plain) if form == 1 else plain
+            why = "malformed-nibbles"
+            what = f"explore({prefix}, {plain}) on replica {r}"
         ok = self.apply(rep, lambda fog: fog.explore(a_prefix, a_segs), why is None, why, what)
         tag = cmd.get("why")
         if tag == "dup":
@@ -448,6 +470,9 @@ def generate(rng):
 
     def malformed(prefix, segs):
         k = rng.random()
+        if k < 0.2:
+            return {"prefix": prefix, "segs": segs, "badnib": {"i": rng.randrange(8), "j": rng.randrange(8), "kind": rng.choice(["16", "-1", "256", "str", "none", "intseg", "bytesseg"])}}
+        k = rng.random()
         if k < 0.35 and segs:
             return {"prefix": prefix, "segs": segs + [rng.choice(segs)]}
         if k < 0.7:
@@ -503,7 +528,7 @@ def generate(rng):
                 continue
             if kind == "mal":
                 m = malformed(p, s)
-                cmds.append({"op": "deliver", "r": r, "prefix": m["prefix"], "segs": m["segs"], "why": "malformed"})
+                cmds.append(dict({"op": "deliver", "r": r, "prefix": m["prefix"], "segs": m["segs"], "why": "malformed"}, **({"badnib": m["badnib"]} if "badnib" in m else {})))
             elif not s and kind != "retry" and rng.random() < 0.3:
                 leaves.append(p)
                 if len(leaves) >= rng.choice([1, 2, 3]):
